@@ -46,8 +46,14 @@ impl<'a> GeneratorState<'a> {
     }
     pub fn label(&mut self, _l: &str) -> Result<(), Error> { self.push(Rec::Label); Ok(()) }
     // the general add/assign path (load, add 1, store) is not interpreted here: only recorded
-    pub fn generate_arithm(&mut self, _l: &ExprType, _op: &Operation, _r: &ExprType, _pos: usize, _hb: bool) -> Result<ExprType, Error> { self.arith_path = true; Ok(ExprType::A(false)) }
-    pub fn generate_assign(&mut self, l: &ExprType, _r: &ExprType, _pos: usize, _hb: bool) -> Result<ExprType, Error> { self.arith_path = true; Ok(l.clone()) }
+    // (their effect on the flags belief is the one their own contracts state -- U-arithm: the result is in A and the flags describe it; U-assign: a stored low byte is
+    //  what the flags describe, after the high byte nothing is claimed)
+    pub fn generate_arithm(&mut self, _l: &ExprType, _op: &Operation, _r: &ExprType, _pos: usize, _hb: bool) -> Result<ExprType, Error> { self.arith_path = true; self.flags = FlagsState::A; Ok(ExprType::A(false)) }
+    pub fn generate_assign(&mut self, l: &ExprType, _r: &ExprType, _pos: usize, hb: bool) -> Result<ExprType, Error> {
+        self.arith_path = true;
+        self.flags = if hb { FlagsState::Unknown } else { match l { ExprType::Absolute(a, b, c) => FlagsState::Absolute(a.clone(), *b, *c), ExprType::AbsoluteX(s) => FlagsState::AbsoluteX(s.clone()), _ => FlagsState::Unknown } };
+        Ok(l.clone())
+    }
 %(fn)s
 }
 // ---- A-isa interpreter of the recorded sequence -------------------------------------------------------------------------
@@ -144,6 +150,18 @@ H17 = """    #[kani::proof] #[kani::unwind(12)]
         assert!(g.arith_path);
     }
 """
+H17F = """    #[kani::proof] #[kani::unwind(12)]
+    fn %(name)s() {      // split-port RAM, 16-bit cell: the last instructions computed and stored the HIGH byte, so nothing may be claimed about N/Z for the 16-bit value
+        let mem = if kani::any() { VariableMemory::Superchip } else { VariableMemory::MemoryOnChip(1) };
+        let vt = if kani::any() { VariableType::Short } else { VariableType::CharPtr };
+        let cs = CompilerState { v: Variable { var_type: vt, memory: mem, var_const: false, signed: false, size: 1 } };
+        let mut g = new_state(&cs, kani::any());
+        let operand = %(operand)s;
+        let r = g.generate_plusplus(&operand, 0, kani::any());
+        assert!(g.arith_path);
+        if r.is_ok() { assert!(g.flags == FlagsState::Unknown); }
+    }
+"""
 
 
 def build(repo):
@@ -179,6 +197,7 @@ def build(repo):
         add("pp_y_%s" % word, H8 % {"name": "pp_y_%s" % word, "what": "register Y, %s" % word, "operand": "ExprType::Y", "pp": pp, "check": "m.y == m0.y.%s(1) && m.lo == m0.lo && m.a == m0.a && m.x == m0.x" % sign, "val": "m.y"},
             ["C01", "C15"], "plusplus-y-%s" % word, "%s of Y: value, other registers, flags belief" % word)
     add("pp_splitport_abs", H17 % {"name": "pp_splitport_abs", "operand": abs8.replace("true", "kani::any()")}, ["C17"], "noinc-abs", "cfg atari2600: ++/-- on a superchip / on-chip-RAM variable never emits INC/DEC on it", cfgs=("atari2600",))
+    add("pp_splitport_abs16_flags", H17F % {"name": "pp_splitport_abs16_flags", "operand": abs16}, ["C17", "C01"], "splitport-16bit-flags-unknown", "cfg atari2600: after ++/-- of a 16-bit cell in split-port RAM (load/add/store path) the generator claims nothing about N/Z", cfgs=("atari2600",))
     add("pp_splitport_absx", H17 % {"name": "pp_splitport_absx", "operand": absx}, ["C17"], "noinc-absx", "cfg atari2600: ++/-- on v[X] in split-port RAM never emits INC/DEC on it", cfgs=("atari2600",))
     u.harnesses["canary_must_fail"] = (["C00"], "canary", "deliberately false")
     base = {"operation": comp.item("enum", "Operation").text, "mnemonic": asmf.item("enum", "AsmMnemonic").text,
